@@ -37,7 +37,7 @@ type c04Scen struct {
 
 func genC04(backend string) func(t *rapid.T) c04Scen {
 	return func(t *rapid.T) c04Scen {
-		s := c04Scen{Backend: backend, V: rapid.SampledFrom([]int{4, 5}).Draw(t, "v")}
+		s := c04Scen{Backend: backend, V: rapid.SampledFrom([]int{3, 4, 5, 5}).Draw(t, "v")}
 		n := rapid.IntRange(2, 20).Draw(t, "nops")
 		for i := 0; i < n; i++ {
 			id := uint16(rapid.IntRange(1, 3).Draw(t, "id"))
@@ -62,6 +62,9 @@ func genC04(backend string) func(t *rapid.T) c04Scen {
 }
 
 func runC04(s c04Scen, c *ev.Case) *ev.Violation {
+	if s.V == 3 {
+		c.Label("mqtt31_client")
+	}
 	cfg := fixture.BaseConfig()
 	var b *fixture.Broker
 	var err error
